@@ -335,6 +335,27 @@ fn part_b(ctx: &Arc<Ctx>) {
 					Err(pn) => ctx.violation(&format!("recompress panics at {}", panic_site(&pn)), &pn, case),
 				}
 			}
+			// a gzip stream may consist of several members (RFC 1952 2.2): stored tiles produced by concatenating writers
+			if inc == TileCompression::Gzip && p.len() >= 2 {
+				let (a, b) = p.split_at(p.len() / 2);
+				let mut multi = codec::gzip(a);
+				multi.extend(codec::gzip(b));
+				ctx.eval();
+				for &outc in &comps {
+					let r = catch(|| recompress(Blob::from(multi.as_slice()), &inc, &outc));
+					let case = json!({"fn": "recompress", "payload": pname, "in": "gzip (two members)", "out": ct::comp_id(outc)});
+					match r {
+						Ok(Ok(b)) => {
+							let ok = if outc == TileCompression::Gzip && b.as_slice() == multi.as_slice() { Ok(()) } else { really_encoded(ct::comp_id(outc), b.as_slice(), p) };
+							if let Err(why) = ok {
+								ctx.violation("recompress changes the payload of a gzip stream with two members", &format!("{pname} Gzip(2 members)->{outc:?}: {why}"), case);
+							}
+						}
+						Ok(Err(e)) => ctx.violation("recompress fails on a gzip stream with two members", &format!("{pname} ->{outc:?}: {e}"), case),
+						Err(pn) => ctx.violation(&format!("recompress panics at {}", panic_site(&pn)), &pn, case),
+					}
+				}
+			}
 			let c = catch(|| compress(Blob::from(p.as_slice()), &inc).and_then(|b| decompress(b, &inc)));
 			if !matches!(&c, Ok(Ok(b)) if b.as_slice() == p.as_slice()) {
 				ctx.violation("decompress(compress(x)) != x", &format!("{pname} {inc:?}"), json!({"fn": "compress", "payload": pname, "comp": ct::comp_id(inc)}));
